@@ -5,6 +5,7 @@ import PyGqlModel.Lex
 import PyGqlModel.Lemmas.LexBlockString
 import PyGqlModel.Lemmas.LexChars
 import PyGqlModel.Lemmas.LexRange
+import PyGqlModel.Lemmas.LexUnicodePair
 
 namespace PyGql.Props.C02
 open PyGql.Lex PyGql.BlockString
@@ -48,28 +49,36 @@ theorem escape_spec_sound (n : Nat) (s v rest : Text) (h : readStringBody n s = 
     refine ⟨92 :: e :: body, by simp, ?_⟩
     rw [quoted_spec] at hq
     rw [stringCharacters.eq_def]; simp [he, hq, hb]
-  | case5 e t1 ch hq err hrec _ ih =>
-    cases h
-  | case6 a b c' d t2 ch hx v' r hrec _ hq ih =>
+  | case5 => cases h
+  | case6 a b c' d ch hx cp e1 e2 a2 b2 c2 d2 t3 v' r hrec _ hq hp ih =>
+    -- a surrogate pair of escapes
+    simp only [Except.ok.injEq, Prod.mk.injEq] at h
+    obtain ⟨rfl, rfl⟩ := h
+    obtain ⟨body, rfl, hb⟩ := ih v' hrec
+    refine ⟨92 :: 117 :: a :: b :: c' :: d :: e1 :: e2 :: a2 :: b2 :: c2 :: d2 :: body, by simp, ?_⟩
+    rw [hex4_spec] at hx
+    have hp' : pairedAt ch (e1 :: e2 :: a2 :: b2 :: c2 :: d2 :: body) = some cp := by
+      rw [← pairAt_spec]; simpa [pairAt] using hp
+    rw [stringCharacters_unicode_pair a b c' d ch e1 e2 a2 b2 c2 d2 cp body hx hp', hb]; rfl
+  | case7 => cases h
+  | case8 => cases h
+  | case9 a b c' d t2 ch hx hnp v' r hrec _ hq ih =>
+    -- an escape that is not the high half of a pair of escapes
     simp only [Except.ok.injEq, Prod.mk.injEq] at h
     obtain ⟨rfl, rfl⟩ := h
     obtain ⟨body, rfl, hb⟩ := ih v' hrec
     refine ⟨92 :: 117 :: a :: b :: c' :: d :: body, by simp, ?_⟩
     rw [hex4_spec] at hx
-    rw [stringCharacters.eq_def]; simp [hx, hb]
-  | case7 a b c' d t2 ch hx err hrec _ hq ih =>
-    cases h
-  | case8 a b c' d t2 hx _ hq =>
-    cases h
-  | case9 t1 hshort _ hq =>
-    cases h
-  | case10 e t1 hq he _ =>
-    cases h
-  | case11 c t h34 h92 hnl =>
-    cases h
-  | case12 c t h34 h92 hnl hp =>
-    cases h
-  | case13 c t h34 h92 hnl hp v' r hrec ih =>
+    have hnp' : pairedAt ch body = none := by
+      rw [← pairAt_spec, ← pairAt_append_quote ch body r]; exact hnp
+    rw [stringCharacters_unicode_nopair a b c' d ch body hx hnp', hb]; rfl
+  | case10 => cases h
+  | case11 => cases h
+  | case12 => cases h
+  | case13 => cases h
+  | case14 => cases h
+  | case15 => cases h
+  | case16 c t h34 h92 hnl hp v' r hrec ih =>
     simp only [Except.ok.injEq, Prod.mk.injEq] at h
     obtain ⟨rfl, rfl⟩ := h
     obtain ⟨body, rfl, hb⟩ := ih v' hrec
@@ -80,8 +89,7 @@ theorem escape_spec_sound (n : Nat) (s v rest : Text) (h : readStringBody n s = 
       rw [hp'] at this
       simpa [Bool.and_eq_true] using this.symm
     rw [stringCharacters.eq_def]; simp [h92, h34, hsrc.1, hsrc.2, hb]
-  | case14 c t h34 h92 hnl hp err hrec ih =>
-    cases h
+  | case17 => cases h
 
 /-- escape decoding, completeness: every StringCharacter* followed by a quote is read, with its semantic value -/
 theorem escape_spec_complete (n : Nat) (body v rest : Text) (h : stringCharacters body = some v) :
@@ -91,24 +99,34 @@ theorem escape_spec_complete (n : Nat) (body v rest : Text) (h : stringCharacter
     simp only [Option.some.injEq] at h; subst h
     rw [readStringBody.eq_def]; simp
   | case2 => cases h
-  | case3 a b c' d t2 u w hw hu ih =>
-    simp only [Option.some.injEq] at h; subst h
-    have := ih w hw
+  | case3 => cases h
+  | case4 a b c' d u hu cp e1 e2 a2 b2 c2 d2 t3 hp ih =>
+    simp only [Option.map_eq_some_iff] at h
+    obtain ⟨w, hw, rfl⟩ := h
     rw [← hex4_spec] at hu
-    have hq : quoted 117 = none := by rw [quoted_spec]; simp [escapedCharacter]
-    rw [readStringBody.eq_def]
-    simp [hq, hu, this]
-  | case4 a b c' d t2 hno ih => cases h
-  | case5 t1 hshort => cases h
-  | case6 e t1 he u w hw hu ih =>
+    have hp' : pairAt u (e1 :: e2 :: a2 :: b2 :: c2 :: d2 :: (t3 ++ 34 :: rest)) = some cp := by
+      rw [← pairAt_spec] at hp; simpa [pairAt] using hp
+    simp only [List.cons_append]
+    rw [readStringBody_unicode_pair n a b c' d u e1 e2 a2 b2 c2 d2 cp _ hu hp', ih w hw]; rfl
+  | case5 => cases h
+  | case6 a b c' d t2 u hu hnp ih =>
+    simp only [Option.map_eq_some_iff] at h
+    obtain ⟨w, hw, rfl⟩ := h
+    rw [← hex4_spec] at hu
+    have hnp' : pairAt u (t2 ++ 34 :: rest) = none := by
+      rw [pairAt_append_quote, pairAt_spec]; exact hnp
+    simp only [List.cons_append]
+    rw [readStringBody_unicode_nopair n a b c' d u _ hu hnp', ih w hw]; rfl
+  | case7 => cases h
+  | case8 e t1 he u w hw hu ih =>
     simp only [Option.some.injEq] at h; subst h
     have := ih w hw
     rw [← quoted_spec] at hu
     rw [readStringBody.eq_def]
     simp [hu, this]
-  | case7 e t1 he hno ih => cases h
-  | case8 d ds h92 hbad => cases h
-  | case9 c t h92 hbad ih =>
+  | case9 => cases h
+  | case10 => cases h
+  | case11 c t h92 hbad ih =>
     simp only [Option.map_eq_some_iff] at h
     obtain ⟨w, hw, rfl⟩ := h
     have := ih w hw
@@ -131,6 +149,12 @@ theorem escape_spec (n : Nat) (s v rest : Text) :
 
 /-- non-vacuity: `"aካ\n"` -/
 example : (readStringBody 13 [97, 92, 117, 49, 50, 65, 98, 92, 110, 34]).toOption = some ([97, 0x12AB, 10], []) := by decide
+/-- fix C02-U1: `"\\uD83D\\uDE00"` is ONE character U+1F600; an unpaired escape stays a lone code unit; a high escape
+    followed by a LITERAL low surrogate is not combined -/
+example : (readStringBody 14 [92, 117, 68, 56, 51, 68, 92, 117, 68, 69, 48, 48, 34]).toOption = some ([0x1F600], []) := by decide
+example : (readStringBody 8 [92, 117, 68, 56, 51, 68, 34]).toOption = some ([0xD83D], []) := by decide
+example : (readStringBody 9 [92, 117, 68, 56, 51, 68, 0xDE00, 34]).toOption = some ([0xD83D, 0xDE00], []) := by decide
+example : (readStringBody 14 [92, 117, 68, 69, 48, 48, 92, 117, 68, 56, 51, 68, 34]).toOption = some ([0xDE00, 0xD83D], []) := by decide
 /-- Arabic-Indic digits, `0x12`, a trailing blank are not hex escapes -/
 example : (readStringBody 8 [92, 117, 0x661, 0x662, 0x663, 0x664, 34]).toOption = none := by decide
 example : (readStringBody 8 [92, 117, 48, 120, 49, 50, 34]).toOption = none := by decide
